@@ -107,10 +107,10 @@ theorem preEos_ne_nil_iff (l : List (Nat × Bytes)) : preEos l ≠ [] ↔ ∃ y 
     have := h y (by simpa using hy)
     simp [hye] at this
 
-theorem injectFrame_eq (c : ICfg) (aud : Nat → Bytes) (pres : Nat → Nat) (rpus : List Bytes) (mm : Bool)
-    (last : Option Bytes) (final : Bool) (fr : Nat × List Item) (r : Bytes)
+theorem injectFrame_eq (c : ICfg) (aud : Nat → Bytes) (pres : Nat → Nat) (nFrames : Nat) (rpus : List Bytes) (mm : Bool)
+    (last : Option Bytes) (final : Bool) (fr : Nat × List Item) (r : Bytes) (hlt : fr.1 < nFrames)
     (hr : rpus[pres fr.1]? = some r) (hb : preEos (injBody0 fr) ≠ []) :
-    injectFrame c aud pres rpus mm last final fr = some (frameOut c aud r fr, some r) := by
+    injectFrame c aud pres nFrames rpus mm last final fr = some (frameOut c aud r fr, some r) := by
   have hb0 : injBody0 fr ≠ [] := by
     intro h; rw [h] at hb; simp [preEos] at hb
   have hpre : preEos (injBody c aud fr) ≠ [] := by
@@ -121,19 +121,20 @@ theorem injectFrame_eq (c : ICfg) (aud : Nat → Bytes) (pres : Nat → Nat) (rp
     · exact hy
     · exact List.mem_cons_of_mem _ hy
   unfold injectFrame
-  simp only [hr]
+  simp only [if_pos hlt, hr]
   have e0 : (List.map payI (List.filter (fun it => decide (it.typ ≠ NAL_UNSPEC62)) fr.2)) = injBody0 fr := rfl
   rw [e0]
-  rw [if_neg (by intro h; exact hb0 h.2)]
+  rw [if_neg (by intro h; rcases h.2 with h | h; exact absurd h (by omega); exact hb0 h)]
+  rw [if_neg (by intro h; have := h.2; omega)]
   have e1 : (if c.noAddAud = true then injBody0 fr else (NAL_AUD, aud fr.1) :: injBody0 fr) = injBody c aud fr := rfl
   simp only [e1]
   rw [if_neg hpre]
   rfl
 
-theorem injectGo_matched (c : ICfg) (aud : Nat → Bytes) (pres : Nat → Nat) (rpus : List Bytes) (mm : Bool)
-    (last : Option Bytes) (frs : List (Nat × List Item))
+theorem injectGo_matched (c : ICfg) (aud : Nat → Bytes) (pres : Nat → Nat) (nFrames : Nat) (rpus : List Bytes) (mm : Bool)
+    (last : Option Bytes) (frs : List (Nat × List Item)) (hlt : ∀ fr ∈ frs, fr.1 < nFrames)
     (hr : ∀ fr ∈ frs, pres fr.1 < rpus.length) (hb : ∀ fr ∈ frs, preEos (injBody0 fr) ≠ []) :
-    injectGo c aud pres rpus mm last frs =
+    injectGo c aud pres nFrames rpus mm last frs =
       some (frs.flatMap (fun fr => frameOut c aud (rpus.getD (pres fr.1) []) fr)) := by
   induction frs generalizing last with
   | nil => rfl
@@ -143,21 +144,58 @@ theorem injectGo_matched (c : ICfg) (aud : Nat → Bytes) (pres : Nat → Nat) (
       simp [List.getD, List.getElem?_eq_getElem this]
     cases rest with
     | nil =>
-      simp only [injectGo, injectFrame_eq c aud pres rpus mm last true fr _ hfr (hb fr (by simp))]
+      simp only [injectGo, injectFrame_eq c aud pres nFrames rpus mm last true fr _ (hlt fr (by simp)) hfr (hb fr (by simp))]
       simp
     | cons fr2 rest2 =>
-      simp only [injectGo, injectFrame_eq c aud pres rpus mm last false fr _ hfr (hb fr (by simp))]
-      rw [ih _ (fun x hx => hr x (by simp [hx])) (fun x hx => hb x (by simp [hx]))]
+      simp only [injectGo, injectFrame_eq c aud pres nFrames rpus mm last false fr _ (hlt fr (by simp)) hfr (hb fr (by simp))]
+      rw [ih _ (fun x hx => hlt x (by simp [hx])) (fun x hx => hr x (by simp [hx])) (fun x hx => hb x (by simp [hx]))]
       simp
 
 /-- existing AUDs are ignored altogether when AUDs are regenerated -/
 def keepAud (c : ICfg) (items : List Item) : List Item :=
   if c.noAddAud then items else items.filter (fun it => it.typ ≠ NAL_AUD)
 
-/-- inject-rpu with a list that covers every frame: frame by frame, the RPU of the frame's presentation
-number behind the last NAL that is not EOS/EOB -/
-theorem inject_matched (c : ICfg) (aud : Nat → Bytes) (pres : Nat → Nat) (nFrames : Nat) (rpus : List Bytes)
+theorem keepAud_subset (c : ICfg) (items : List Item) : ∀ it ∈ keepAud c items, it ∈ items := by
+  intro it h
+  unfold keepAud at h
+  split at h
+  · exact h
+  · exact (List.mem_filter.mp h).1
+
+theorem keepAud_append (c : ICfg) (a b : List Item) : keepAud c (a ++ b) = keepAud c a ++ keepAud c b := by
+  unfold keepAud; split <;> simp
+
+/-- the number of a frame buffer is 0 (the initial buffer) or the label of a NAL -/
+theorem framesAux_label (cur : Nat) (acc items : List Item) :
+    ∀ fr ∈ framesAux cur acc items, fr.1 = cur ∨ ∃ it ∈ items, it.au = fr.1 := by
+  induction items generalizing cur acc with
+  | nil => intro fr h; simp [framesAux] at h; left; rw [h]
+  | cons it rest ih =>
+    intro fr h
+    simp only [framesAux] at h
+    split at h
+    · rcases ih cur (it :: acc) fr h with h1 | ⟨x, hx, hxe⟩
+      · exact Or.inl h1
+      · exact Or.inr ⟨x, List.mem_cons_of_mem _ hx, hxe⟩
+    · rcases List.mem_cons.mp h with rfl | h
+      · exact Or.inl rfl
+      · rcases ih it.au [it] fr h with h1 | ⟨x, hx, hxe⟩
+        · exact Or.inr ⟨it, by simp, h1.symm⟩
+        · exact Or.inr ⟨x, List.mem_cons_of_mem _ hx, hxe⟩
+
+/-- in a stream whose every NAL belongs to a frame (label below the frame count), every frame buffer carries the
+number of a frame -/
+theorem frames_label_lt (n : Nat) (items : List Item) (hn : n ≠ 0) (h : ∀ it ∈ items, it.au < n) :
+    ∀ fr ∈ frames items, fr.1 < n := by
+  intro fr hfr
+  rcases framesAux_label 0 [] items fr hfr with h0 | ⟨x, hx, hxe⟩
+  · omega
+  · rw [← hxe]; exact h x hx
+
+/-- inject-rpu with a list that covers every frame (frame-buffer form of the hypothesis) -/
+theorem inject_matched_frames (c : ICfg) (aud : Nat → Bytes) (pres : Nat → Nat) (nFrames : Nat) (rpus : List Bytes)
     (items : List Item) (hd : c.drop = false) (hn : nFrames ≠ 0) (hi : items ≠ [])
+    (hlt : ∀ fr ∈ frames (keepAud c items), fr.1 < nFrames)
     (hr : ∀ fr ∈ frames (keepAud c items), pres fr.1 < rpus.length)
     (hb : ∀ fr ∈ frames (keepAud c items), preEos (injBody0 fr) ≠ []) :
     inject c aud pres nFrames rpus items =
@@ -165,7 +203,19 @@ theorem inject_matched (c : ICfg) (aud : Nat → Bytes) (pres : Nat → Nat) (nF
   unfold inject
   rw [if_neg (by simp [hn, hi]), hd, seiStage_false]
   simp only
-  exact injectGo_matched c aud pres rpus _ none _ hr hb
+  exact injectGo_matched c aud pres nFrames rpus _ none _ hlt hr hb
+
+/-- inject-rpu with a list that covers every frame: frame by frame, the RPU of the frame's presentation
+number behind the last NAL that is not EOS/EOB — for a stream whose every NAL belongs to a frame -/
+theorem inject_matched (c : ICfg) (aud : Nat → Bytes) (pres : Nat → Nat) (nFrames : Nat) (rpus : List Bytes)
+    (items : List Item) (hd : c.drop = false) (hn : nFrames ≠ 0) (hi : items ≠ [])
+    (hfr : ∀ it ∈ items, it.au < nFrames)
+    (hr : ∀ fr ∈ frames (keepAud c items), pres fr.1 < rpus.length)
+    (hb : ∀ fr ∈ frames (keepAud c items), preEos (injBody0 fr) ≠ []) :
+    inject c aud pres nFrames rpus items =
+      some ((frames (keepAud c items)).flatMap (fun fr => frameOut c aud (rpus.getD (pres fr.1) []) fr)) :=
+  inject_matched_frames c aud pres nFrames rpus items hd hn hi
+    (frames_label_lt nFrames _ hn (fun it h => hfr it (keepAud_subset c items it h))) hr hb
 
 theorem injBody0_no_rpu (fr : Nat × List Item) : ∀ x ∈ injBody0 fr, x.1 ≠ NAL_UNSPEC62 := by
   intro x hx
@@ -266,5 +316,113 @@ theorem inject_rpus (c : ICfg) (aud : Nat → Bytes) (pres : Nat → Nat) (rpus 
         simp [hno x this]
       simp [h1, h2]
     rw [this]; rfl
+
+/-! ### NALs behind the last slice: labelled with the frame count, left to `finalize`, not written -/
+
+theorem framesAux_same (cur : Nat) (acc l : List Item) (h : ∀ it ∈ l, it.au = cur) :
+    framesAux cur acc l = [(cur, acc.reverse ++ l)] := by
+  induction l generalizing acc with
+  | nil => simp [framesAux]
+  | cons it rest ih =>
+    simp only [framesAux, h it (by simp), if_true]
+    rw [ih (it :: acc) (fun x hx => h x (by simp [hx]))]
+    simp
+
+/-- NALs labelled `n` behind NALs with labels below `n` form one more frame buffer, the last -/
+theorem framesAux_append_tail (n cur : Nat) (acc a t : List Item) (hcur : cur < n) (ha : ∀ it ∈ a, it.au < n)
+    (ht : ∀ it ∈ t, it.au = n) (hne : t ≠ []) :
+    framesAux cur acc (a ++ t) = framesAux cur acc a ++ [(n, t)] := by
+  induction a generalizing cur acc with
+  | nil =>
+    cases t with
+    | nil => exact absurd rfl hne
+    | cons x t' =>
+      have hx : x.au = n := ht x (by simp)
+      simp only [List.nil_append, framesAux]
+      rw [if_neg (by omega), hx, framesAux_same n [x] t' (fun y hy => ht y (by simp [hy]))]
+      simp
+  | cons it rest ih =>
+    simp only [List.cons_append, framesAux]
+    split
+    · rw [ih cur (it :: acc) hcur (fun x hx => ha x (by simp [hx]))]
+    · rw [ih it.au [it] (ha it (by simp)) (fun x hx => ha x (by simp [hx]))]
+      simp
+
+theorem frames_append_tail (n : Nat) (a t : List Item) (hn : n ≠ 0) (ha : ∀ it ∈ a, it.au < n)
+    (ht : ∀ it ∈ t, it.au = n) (hne : t ≠ []) : frames (a ++ t) = frames a ++ [(n, t)] :=
+  framesAux_append_tail n 0 [] a t (by omega) ha ht hne
+
+/-- a last frame buffer numbered `nFrames` is not written, and the buffer in front of it — closed by its first
+NAL instead of by `finalize` — is written as it would be without it when it holds a NAL -/
+theorem injectGo_append_dropped (c : ICfg) (aud : Nat → Bytes) (pres : Nat → Nat) (nFrames : Nat) (rpus : List Bytes)
+    (mm : Bool) (last : Option Bytes) (frs : List (Nat × List Item)) (g : List Item) (hne : frs ≠ [])
+    (hlast : ∀ fr, frs.getLast? = some fr → fr.1 ≠ nFrames ∧ injBody0 fr ≠ []) :
+    injectGo c aud pres nFrames rpus mm last (frs ++ [(nFrames, g)]) = injectGo c aud pres nFrames rpus mm last frs := by
+  induction frs generalizing last with
+  | nil => exact absurd rfl hne
+  | cons fr rest ih =>
+    cases rest with
+    | nil =>
+      obtain ⟨h1, h2⟩ := hlast fr (by simp)
+      have hf : injectFrame c aud pres nFrames rpus mm last false fr = injectFrame c aud pres nFrames rpus mm last true fr := by
+        unfold injectFrame
+        have e0 : (List.map payI (List.filter (fun it => decide (it.typ ≠ NAL_UNSPEC62)) fr.2)) = injBody0 fr := rfl
+        simp only [e0]
+        have n2 : ¬ (True ∧ (fr.1 = nFrames ∨ injBody0 fr = [])) := by
+          intro h; rcases h.2 with h | h
+          · exact h1 h
+          · exact h2 h
+        rw [if_neg n2, if_neg (by simp : ¬ (false = true ∧ (fr.1 = nFrames ∨ injBody0 fr = [])))]
+      simp only [List.cons_append, List.nil_append, injectGo, hf]
+      cases injectFrame c aud pres nFrames rpus mm last true fr with
+      | none => rfl
+      | some p =>
+        obtain ⟨o, l'⟩ := p
+        simp [injectFrame]
+    | cons fr2 rest2 =>
+      have ih' := fun l => ih l (by simp) (by
+        intro f hf; apply hlast f; simpa [List.getLast?_cons_cons] using hf)
+      simp only [List.cons_append, injectGo] at ih' ⊢
+      cases injectFrame c aud pres nFrames rpus mm last false fr with
+      | none => rfl
+      | some p =>
+        obtain ⟨o, l'⟩ := p
+        simp only
+        rw [ih' l']
+
+/-- **inject-rpu drops the NALs behind the last slice.**  `tail`: NALs labelled with the frame count (what
+hevc_parser gives an AUD, prefix SEI, VPS/SPS/PPS … that follows the last slice of the stream), behind a stream
+`items` whose every NAL belongs to a frame and whose last frame buffer holds a NAL other than an RPU.  The command
+writes what it writes for `items` alone: no NAL of `tail`, no RPU for it. -/
+theorem inject_trailing_dropped (c : ICfg) (aud : Nat → Bytes) (pres : Nat → Nat) (nFrames : Nat) (rpus : List Bytes)
+    (items tail : List Item) (hd : c.drop = false) (hfr : ∀ it ∈ items, it.au < nFrames)
+    (htail : ∀ it ∈ tail, it.au = nFrames)
+    (hlast : ∀ fr, (frames (keepAud c items)).getLast? = some fr → injBody0 fr ≠ []) :
+    inject c aud pres nFrames rpus (items ++ tail) = inject c aud pres nFrames rpus items := by
+  by_cases hn : nFrames = 0
+  · simp [inject, hn]
+  by_cases hi : items = []
+  · -- no NAL in front: the last (and only) buffer of `items` is the empty initial one
+    subst hi
+    have := hlast (0, []) (by simp [keepAud, frames, framesAux])
+    exact absurd rfl this
+  have hi2 : items ++ tail ≠ [] := by simp [hi]
+  unfold inject
+  rw [if_neg (by simp [hn, hi]), if_neg (by simp [hn, hi]), hd, seiStage_false, seiStage_false]
+  simp only
+  have e1 : (if c.noAddAud = true then items ++ tail else (items ++ tail).filter (fun it => it.typ ≠ NAL_AUD))
+      = keepAud c items ++ keepAud c tail := by rw [← keepAud_append]; rfl
+  have e2 : (if c.noAddAud = true then items else items.filter (fun it => it.typ ≠ NAL_AUD)) = keepAud c items := rfl
+  rw [e1, e2]
+  by_cases ht : keepAud c tail = []
+  · rw [ht, List.append_nil]
+  · rw [frames_append_tail nFrames _ _ hn (fun it h => hfr it (keepAud_subset c items it h))
+      (fun it h => htail it (keepAud_subset c tail it h)) ht]
+    apply injectGo_append_dropped
+    · exact framesAux_ne_nil 0 [] _
+    · intro fr hfr'
+      refine ⟨?_, hlast fr hfr'⟩
+      have := frames_label_lt nFrames _ hn (fun it h => hfr it (keepAud_subset c items it h)) fr (List.mem_of_getLast? hfr')
+      omega
 
 end Dovi.Hevc
